@@ -214,11 +214,15 @@ class USBDeviceHandle(object):
     def bulkRead(self, endpoint, length, timeout=0):
         CALLS.append(('bulkRead', endpoint, length, timeout))
         self._alive('bulkRead')
+        if not self.claimed:
+            CALLS.append(('unclaimed-transfer', 'bulkRead'))
         return self._b().bulk_read(self, endpoint, length, timeout)
 
     def bulkWrite(self, endpoint, data, timeout=0):
         CALLS.append(('bulkWrite', endpoint, len(data), timeout))
         self._alive('bulkWrite')
+        if not self.claimed:
+            CALLS.append(('unclaimed-transfer', 'bulkWrite'))
         return self._b().bulk_write(self, endpoint, bytes(data), timeout)
 
 
